@@ -106,6 +106,18 @@ CHECKS["C09"] = dict(
           "closed-valve/out-of-service = absence belong to the connectivity / pit-construction obligations (engine E3)."),
     ref="DESIGN.md section 4 C09")
 
+CHECKS["C20"] = dict(
+    engine="E1",
+    technique="contract-based deductive verification: VCs from the AST of control_step/write_to_net of the three coupling controllers over label-addressed table models (scalar .at path and array .loc path), conversion-factor lemmas, structural obligations on _evaluate_multinet, discharged by z3",
+    text=("For P2G, G2P (both directions) and G2G the value written to the coupled element is proved to be scaled value x conversion "
+          "factor x efficiency at the fluid's heating value, for a scalar index and for an arbitrary index array with unique labels; "
+          "nothing else in the target table and nothing in the source table changes; the two conversion factors are proved inverse, so "
+          "a round trip returns the product of the efficiencies; _evaluate_multinet reports the conjunction of the member nets' flags."),
+    note=(TB + "pandas .at/.loc by assumed contract (scalar access raises ValueError for list-likes; labels unique); reals for floats (A1). "
+          "'Every member net holds the results of a stand-alone calculation' is the purity property C12 together with C05; controller "
+          "ordering / levels are pandapower's control loop (assumed)."),
+    ref="DESIGN.md section 4 C20")
+
 NOT_APPLICABLE = {
     "C08": "uniqueness of the solution of the nonlinear system within tolerances and convergence of damped Newton in floating point: a whole-history/analytic property, no pre/post contract within reach expresses it (DESIGN.md section 5)",
     "C15": "the save/load round trip is the behaviour of pandapower/pandas/json/pickle/scipy object state; a contract strong enough would have to assume the property (DESIGN.md section 5)",
